@@ -1,8 +1,7 @@
 META = {}
 NOTES = ("All checks are property-based tests / fuzzing (generated-input search against an explicit oracle). "
          "./check <ID> --tier quick|thorough; exit 2 = inconclusive (never a verdict).")
-_pending = "check under construction in this session; will be claimed once it is built and has passed on the repaired tree"
-NOT_APPLICABLE = {f"C{i:02d}": _pending for i in range(1, 21)}
+NOT_APPLICABLE = {}
 
 META["C12"] = {
     "text": "Generated search: Threshold(s) compared with an exact-integer decision rule (thorough: every s in 1..10^6, i.e. exhaustive over the stated range); "
@@ -12,3 +11,50 @@ META["C12"] = {
     "note": "Trusted: Go math library, the mpmath-validated reference Igamc, big.Int arithmetic.",
     "technique": "property-based testing (rapid) against reference model + exhaustive enumeration of s + metamorphic permutation invariance",
 }
+
+
+_T = "Trusted: Go toolchain and math library, pgregory.net/rapid, the harness's own reference implementations (validated on every run against the standard's annex known answers and an mpmath table)."
+
+def _m(pid, text, technique, note=_T):
+    META[pid] = {"text": text, "design_ref": f"DESIGN.md section 5 {pid}", "note": note, "technique": technique}
+
+_m("C01", "Generated search over structured bit sequences x documented parameters, compared (1e-8) with an independent transcription of the standard + big.Float incomplete gamma; boundary sweep of the automatic block length. "
+          "Exploration: the input space is unbounded, so the claim is 'no deviation on the stated number of generated cases', with generator families derived from the quantifier and the code's branch conditions.",
+   "property-based testing (rapid) against an independent reference model + deterministic boundary sweep")
+_m("C02", "Generated search over run-structured sequences (run lists pinned around the cut-off k, blockwise forced longest runs at each class edge, regime-boundary lengths), compared with a run-decomposition reference whose class tables are re-derived by exact big-integer DP. Exploration level.",
+   "property-based testing (rapid) against an independent reference model + exact DP table derivation + boundary sweep")
+_m("C03", "Generated search over sequences x k, d, direction incl. walks forced to every order of maximum excursion and tiles that make the derivative/autocorrelation degenerate, compared with naive references. Exploration level.",
+   "property-based testing (rapid) against an independent reference model + parameter sweep")
+_m("C04", "Exhaustive enumeration of all 2^m one-block inputs (m <= 12 quick, <= 16 thorough) plus generated LFSR / hostile blocks at m = 500/1000/5000, matrices of constructed rank, Maurer inputs with restricted initialisation alphabets; a panic is a violation; values compared with bitset GF(2) rank, textbook Berlekamp-Massey and a map-based Maurer. "
+          "Thorough adds native go fuzz targets with the same differential oracle. Exploration (exhaustive for small m).",
+   "property-based testing (rapid) + exhaustive small-block enumeration + native go fuzzing, differential against reference implementations")
+_m("C05", "Generated search over lengths (every n <= 64, powers of two, 2^k+1, arbitrary) and spectral shapes, compared with a naive O(N^2) DFT / independent recursive FFT; bins within 1e-9 of the threshold may count either way, exactly as the property allows. Exploration level.",
+   "property-based testing (rapid) against naive DFT / independent FFT reference")
+_m("C06", "Generated (a,x,x2) triples dense around both switch-over lines, the underflow cut-off and both tails, compared with a finite-sum closed form in 320-bit big.Float (tolerance 1e-12+1e-14a); range, x<=0 and monotonicity asserted. Exploration over a continuous domain.",
+   "property-based testing (rapid) against a high-precision reference + metamorphic monotonicity")
+_m("C07", "Streams composed from a pool of classified samples so that pass counts sit at threshold-1/threshold and ten-bin histograms sit on both sides of the 1e-4 uniformity boundary; verdict, error and named item compared with an independent decision model; trailing bytes must not matter. Exploration: the 10^6-bit workflows cost 30-80 s per stream, so few of those per run.",
+   "property-based testing (rapid) with boundary-targeted stream composition against an independent decision model")
+_m("C08", "Differential: sequential vs parallel workflow on the same generated stream under perturbed schedules (read delays, GOMAXPROCS, worker count via taskset) plus a -race build. Exploration: schedules are sampled, not enumerated; the oracle holds on every schedule, so nondeterminism can only cause misses, never false alarms.",
+   "property-based differential testing (rapid) with schedule perturbation + Go race detector")
+_m("C09", "Fault enumeration: workflow x failure kind x offset (every offset for SingleDetect at three sizes; every sample boundary -1/0/+1 and the extremes for the periodic workflows; the cheap offsets for the 10^6-bit workflows) plus rapid-drawn fault points, delays and GOMAXPROCS; 'never hangs' is decided by a goroutine-quiescence detector, leaks by a goroutine census.",
+   "fault-injection enumeration + property-based testing (rapid), quiescence-detector hang oracle")
+_m("C10", "Metamorphic/differential: the same generated stream delivered in full reads (sequential reference) and through chunk plans (1-byte, primes, random, boundary-straddling, one short read) to each of the seven workflows. Exploration level.",
+   "property-based metamorphic testing (rapid) over read-size histories")
+_m("C11", "Generated numByte x contents (incl. contents tuned so that the poker P for one m crosses 0.01 while another does not) compared with a reference poker test and the documented m rule; exact byte consumption asserted; sweep over every numByte 0..400 (0..4096 thorough). Exploration level.",
+   "property-based testing (rapid) against a reference model + length sweep")
+_m("C13", "Generated directory trees x worker counts x GOMAXPROCS run through the built rddetector binary (2*10^4 and 10^6 scales end to end; the 10^8 worker through an overlay shim on short files; the 10^8 header switch on sparse files); the report is judged cell by cell against the library call that the header text names. Exploration level.",
+   "property-based testing (rapid) of the built CLI with a header-driven differential oracle")
+_m("C14", "All 256 constant streams and generated periodic tiles (uniform, sparse at every bit position, structured) through all seven workflows (sequential first, then the parallel twin); hostile single-bit 64-byte tiles deterministically through PowerOnDetect; single-shot 0x00/0xFF at every length (sweep). Oracle: no panic, rejected with error. Exploration level.",
+   "property-based testing (rapid) + enumeration of constant sources, validity-predicate oracle")
+_m("C15", "Generated byte strings x tests x documented parameters: bit-identity (Float64bits) between byte entry point, bit entry point on the harness's own MSB-first expansion, convenience wrapper, registry runner with the standard's defaults, Round15/Round12, ReadGroup, B2bitArr/B2Byte. Exploration level.",
+   "property-based differential testing (rapid) between entry points, bit-identity oracle")
+_m("C16", "Generated and swept extreme sequences (constant, alternating, single transition, extreme bias, balanced, sparse) from each test's minimum length to 10^6 (10^7 thorough) through every test and parameter: range, finiteness, P/Q relation and Pass flag. Exploration level.",
+   "property-based testing (rapid) with a validity-predicate oracle + size sweep")
+_m("C17", "Generated sequences x admissible transformations (complement, reverse, rotation by any amount, block permutation + tail rewrite): metamorphic equalities listed in the property, tolerance 1e-9 (+ n-proportional summation-order allowance). Exploration level.",
+   "property-based metamorphic testing (rapid)")
+_m("C18", "Generated plans of 2..64 concurrent invocations of mixed tests on shared inputs: solitary vs repeated vs concurrent results bit-identical, inputs equal to their snapshots, plus the same check in a -race binary. Exploration: interleavings are sampled.",
+   "property-based testing (rapid) of concurrent invocations + Go race detector")
+_m("C19", "Generated and swept N, inputs (impulses and tones at every position for small N, random vectors), constructor arguments and wrong-length slices compared with the DFT definition (naive DFT, analytic spectra, directly summed bins, Parseval) and the inverse round trip. Exploration level.",
+   "property-based testing (rapid) against the DFT definition + round-trip + argument sweep")
+_m("C20", "Generated (s, n, output path kind, NumCPU) runs of the built rdgen binary in a scratch directory with a full file-system census and the detector's own counting pass. Exploration level.",
+   "property-based testing (rapid) of the built CLI with a file-system census oracle")
